@@ -31,6 +31,7 @@ SEQ["ensures"] += [
     # in a sequential history the base dataset is read iff idx was not cached (hence at most once between clears)
     "forall(lambda k: implies(k >= 0 and k != idx, g_present[k] == old(g_present)[k]))",
     "g_base_reads == b2i(not old(g_present)[idx])",
+    "g_ncalls == old(g_ncalls)",          # frame (justifies modifies_ghost below): the lookup itself never applies the transform
 ]
 CONC = getitem_contract(1, "concurrent-readers")
 CONC_CLEAR = getitem_contract(2, "concurrent-readers-and-clear")
@@ -43,6 +44,7 @@ GETITEM = dict(
     # the post-cache transform is applied on every access (cached or not)
     ensures=["implies(self.transform is not None, g_ncalls == 1)", "implies(self.transform is None, result == Item(self.dataset, idx))"],
 )
+SEQ["modifies_ghost"] = ["g_present", "g_val", "g_base_reads"]      # the cached lookup never calls the post-cache transform
 SEQ["returns"] = VAL
 SEQ["primary"] = True
 SEQ_KEY = f"{F}::SharedDictDataset._cached_getitem"
